@@ -1343,6 +1343,12 @@ def _literal(v: ast.AST) -> bool:
         return True
     if isinstance(v, ast.Tuple) and v.elts and all(isinstance(e, ast.Constant) for e in v.elts):
         return True
+    # float('-inf') and the like: a constant written as a conversion of a literal
+    if isinstance(v, ast.Call) and isinstance(v.func, ast.Name) and v.func.id in ('float', 'int', 'frozenset', 'bytes') and not v.keywords \
+            and len(v.args) == 1 and _literal(v.args[0]):
+        return True
+    if isinstance(v, ast.UnaryOp) and isinstance(v.op, ast.USub) and _literal(v.operand):
+        return True
     return False
 
 
